@@ -38,9 +38,28 @@ int main(int argc, char** argv)
 			cc.push_back(o["c"][i]);
 		}
 		double b = o["b"], f0 = o["f0"];
+		int okind = o.value("kind", 0);
+		std::vector<double> dd;
+		double ww = 0;
+		if(okind == 1)
+		{
+			for(int i = 0; i < n; i++)
+				dd.push_back(o["d"][i]);
+			ww = o["w"];
+		}
 		std::vector<std::vector<double>> ev;
 		auto f = [&](std::vector<double> x) {
 			ev.push_back(x);
+			if(okind == 1)
+			{	// two piecewise-linear wells (not convex): f0 + min(sum a|x-c|, w + sum a|x-d|); exact on the dyadic lattice
+				double s1 = 0, s2 = ww;
+				for(int i = 0; i < n; i++)
+				{
+					s1 += a[i] * std::fabs(x[i] - cc[i]);
+					s2 += a[i] * std::fabs(x[i] - dd[i]);
+				}
+				return f0 + std::min(s1, s2);
+			}
 			double s = f0;
 			for(int i = 0; i < n; i++)
 				s += a[i] * (x[i] - cc[i]) * (x[i] - cc[i]);
